@@ -1,5 +1,8 @@
 import Abyss.Props.C04
+import Abyss.Lemmas.EngineScan
 #print axioms Abyss.C04_iter
 #print axioms Abyss.C04_keys_values
 #print axioms Abyss.C04_scan
 #print axioms Abyss.nextKeyPieceOffset_spec
+#print axioms Abyss.htxNext_bytes
+#print axioms Abyss.reach_htxLen
